@@ -48,7 +48,9 @@ class SubtreesTrie(Generic[T]):
         if root_path is not None:
             self.root_path: str = path_to_trie_key(root_path)
         else:
-            self.root_path: str = ""
+            # The root path is the empty path (not the empty key); otherwise, the paths
+            # in the values returned by `values()` and `items()` get truncated.
+            self.root_path: str = path_to_trie_key(())
 
     def __setitem__(self, key: Path, value: Tuple[Path, T]):
         assert is_path(key)
